@@ -174,6 +174,7 @@ func newNode(kind string, mode string) (n *node, err error) {
 			}
 		}
 	case "mempool":
+		c.Mempool.Size = 64 // small pool so that a flood fills it
 		mp := mpv0.NewCListMempool(c.Mempool, proxyApp.Mempool(), 0)
 		r := mpv0.NewReactor(c.Mempool, mp)
 		r.SetLogger(nopLogger)
@@ -222,7 +223,16 @@ func newNode(kind string, mode string) (n *node, err error) {
 // close stops everything; a component that does not stop within 5 s (e.g. a consensus state
 // whose receive routine died) is abandoned instead of hanging the check.
 func (n *node) close() {
+	abandoned := false
 	for i := len(n.stop) - 1; i >= 0; i-- {
+		if i == 0 && abandoned {
+			// stop[0] removes the scratch directory: a component that could not be stopped (its
+			// goroutines are stuck or still running) may still touch it - e.g. the WAL group's
+			// ticker panics on a vanished directory - so the directory is left behind in this
+			// (violation-only) situation.
+			note("scratch-dir-left-behind")
+			break
+		}
 		done := make(chan struct{})
 		go func(f func()) {
 			defer func() { recover(); close(done) }() //nolint
@@ -232,6 +242,7 @@ func (n *node) close() {
 		case <-done:
 		case <-time.After(5 * time.Second):
 			note("close-timeout")
+			abandoned = true
 		}
 	}
 }
@@ -333,6 +344,163 @@ func (n *node) gossip(what string) (out string) {
 	return "ok"
 }
 
+
+// floodMsgs builds well-formed messages (they pass ValidateBasic; for consensus they are for a
+// height the node is not at, so the state machine just drops them) for the flood probe.
+func (n *node) floodMsgs(mix string, peerNo, count int) (chs []byte, msgs [][]byte) {
+	add := func(ch byte, b []byte) { chs = append(chs, ch); msgs = append(msgs, b) }
+	switch n.kind {
+	case "consensus":
+		ps := types.NewPartSetFromData(bytesOf(200, byte(peerNo)), 64)
+		bid := types.BlockID{Hash: bytesOf(32, 7), PartSetHeader: ps.Header()}
+		for i := 0; i < count; i++ {
+			k := 0
+			if mix == "mixed" {
+				k = i % 8 // votes stay the majority
+			}
+			h := int64(1000000 + i)
+			switch k {
+			case 5:
+				part := ps.GetPart(i % int(ps.Total()))
+				pp, err := part.ToProto()
+				if err != nil {
+					panic(err)
+				}
+				add(0x21, consMsg(&tmcons.BlockPart{Height: h, Round: 0, Part: *pp}))
+			case 6:
+				prop := types.NewProposal(h, 0, -1, bid)
+				prop.Signature = bytesOf(64, 9)
+				add(0x21, consMsg(&tmcons.Proposal{Proposal: *prop.ToProto()}))
+			case 7:
+				if i%16 == 7 {
+					add(0x20, consMsg(&tmcons.HasVote{Height: h, Round: 0, Type: tmproto.PrevoteType, Index: int32(i % 4)}))
+				} else {
+					add(0x23, consMsg(&tmcons.VoteSetBits{Height: h, Round: 0, Type: tmproto.PrevoteType, BlockID: bid.ToProto(),
+						Votes: tmbits.BitArray{Bits: 4, Elems: []uint64{uint64(i % 16)}}}))
+				}
+			default:
+				v := &types.Vote{Type: tmproto.PrevoteType, Height: h, Round: 0, Timestamp: time.Unix(1600000005, 0).UTC(),
+					ValidatorAddress: bytesOf(20, byte(i)), ValidatorIndex: int32(i % 4), Signature: bytesOf(64, byte(peerNo))}
+				if err := v.ValidateBasic(); err != nil {
+					panic(err)
+				}
+				add(0x22, consMsg(&tmcons.Vote{Vote: v.ToProto()}))
+			}
+		}
+	case "mempool":
+		for i := 0; i < count; i++ {
+			tx := []byte(fmt.Sprintf("k%d-%d=v", peerNo, i))
+			add(0x30, mustMarshal(&mpproto.Message{Sum: &mpproto.Message_Txs{Txs: &mpproto.Txs{Txs: [][]byte{tx}}}}))
+		}
+	case "evidence":
+		for i := 0; i < count; i++ {
+			add(0x38, mustMarshal(&tmproto.EvidenceList{}))
+		}
+	}
+	return
+}
+
+func bytesOf(n int, b byte) []byte {
+	out := make([]byte, n)
+	for i := range out {
+		out[i] = b + byte(i)
+	}
+	return out
+}
+
+func within(d time.Duration, f func()) bool {
+	done := make(chan struct{})
+	go func() {
+		defer func() { recover(); close(done) }() //nolint
+		f()
+	}()
+	select {
+	case <-done:
+		return true
+	case <-time.After(d):
+		return false
+	}
+}
+
+// flood: several mock peers deliver, concurrently, more well-formed messages than the consensus
+// peer queue holds; then liveness probes with deadlines. "alive" or "WEDGED-flood:<what>".
+func (n *node) flood(peers, per int, mix string) string {
+	type job struct {
+		peer *p2pmock.Peer
+		chs  []byte
+		msgs [][]byte
+	}
+	var jobs []job
+	for p := 0; p < peers; p++ {
+		peer := p2pmock.NewPeer(net.IPv4(10, 9, 0, byte(p+1)))
+		pp := peer
+		n.stop = append(n.stop, func() { pp.Stop() }) //nolint
+		if ip, ok := n.reactor.(interface{ InitPeer(p2p.Peer) p2p.Peer }); ok {
+			ip.InitPeer(peer)
+		}
+		chs, msgs := n.floodMsgs(mix, p, per)
+		jobs = append(jobs, job{peer, chs, msgs})
+	}
+	var wg sync.WaitGroup
+	var mu sync.Mutex
+	panics, stopped := 0, 0
+	for _, j := range jobs {
+		wg.Add(1)
+		go func(j job) {
+			defer wg.Done()
+			for i := range j.msgs {
+				func() {
+					defer func() {
+						if r := recover(); r != nil {
+							mu.Lock()
+							panics++
+							mu.Unlock()
+						}
+					}()
+					n.reactor.Receive(j.chs[i], j.peer, j.msgs[i])
+				}()
+			}
+			if !j.peer.IsRunning() {
+				mu.Lock()
+				stopped++
+				mu.Unlock()
+			}
+		}(j)
+	}
+	if !within(25*time.Second, wg.Wait) {
+		return "WEDGED-flood:receive-calls-do-not-return"
+	}
+	if panics > 0 {
+		return fmt.Sprintf("flood-panics:%d", panics)
+	}
+	if stopped > 0 {
+		return fmt.Sprintf("flood-stopped-peers:%d", stopped)
+	}
+	if n.cs != nil {
+		// the consensus state is readable (RPC and the gossip routines do this all the time)
+		if !within(10*time.Second, func() { n.cs.GetRoundState() }) {
+			return "WEDGED-flood:GetRoundState-does-not-return"
+		}
+		// the receive routine still consumes: one more queue-load of messages from one peer
+		j := jobs[0]
+		chs, msgs := n.floodMsgs("votes", 99, 1100)
+		if !within(30*time.Second, func() {
+			for i := range msgs {
+				n.reactor.Receive(chs[i], j.peer, msgs[i])
+			}
+		}) {
+			return "WEDGED-flood:queue-not-consumed"
+		}
+		if !within(10*time.Second, func() { n.cs.GetRoundState() }) {
+			return "WEDGED-flood:GetRoundState-does-not-return"
+		}
+		if h := n.health(); h != "healthy" {
+			return "WEDGED-flood:consensus-stopped"
+		}
+	}
+	return "alive"
+}
+
 func (n *node) health() string {
 	if n.cs == nil {
 		return "healthy"
@@ -382,6 +550,8 @@ func execReactor(c core.Case) []string {
 			out = append(out, n.gossip(m["what"]))
 		case "health":
 			out = append(out, n.health())
+		case "flood":
+			out = append(out, n.flood(atoi(m["peers"]), atoi(m["per"]), m["mix"]))
 		default:
 			out = append(out, "bad-op")
 		}
@@ -411,6 +581,12 @@ func oracleReactor(c core.Case, out []string) []core.Finding {
 			fs = append(fs, core.Finding{Fingerprint: kind + "." + verb + ".harness-panic", Desc: op + " => " + o})
 		case o == "STUCK":
 			fs = append(fs, core.Finding{Fingerprint: kind + ".Receive.stuck-on-" + m["kind"], Desc: "Receive did not return within 10 s: " + trunc(op, 300)})
+		case strings.HasPrefix(o, "WEDGED-flood"):
+			fs = append(fs, core.Finding{Fingerprint: kind + ".reactor.wedged-by-flood",
+				Desc: fmt.Sprintf("%s reactor: %s peers concurrently delivered %s well-formed messages each (mix %s); afterwards %s", kind, m["peers"], m["per"], m["mix"], o)})
+		case verb == "flood" && o != "alive":
+			fs = append(fs, core.Finding{Fingerprint: kind + ".reactor.flood-" + strings.SplitN(o, ":", 2)[0],
+				Desc: "well-formed flood messages were not simply handled: " + o})
 		case o == "WEDGED":
 			fs = append(fs, core.Finding{Fingerprint: kind + ".node-wedged-after-" + lastKind, Desc: "the consensus state machine stopped (CONSENSUS FAILURE) after peer input"})
 		case strings.HasPrefix(o, "setup-error"):
@@ -858,6 +1034,23 @@ func genReactor(r *rand.Rand, emit func(core.Case), tier string) {
 	}
 	for i := 0; i < nc; i++ {
 		emit(core.Case{Kind: "reactor", Ops: genConsensusCase(r)})
+	}
+	// flood cases: the WEDGE clause judged with a concrete input (run by Exec only)
+	nf := 2
+	if tier == "thorough" {
+		nf = 6
+	}
+	for i := 0; i < nf; i++ {
+		mode := []string{"propose", "newheight"}[i%2]
+		mix := []string{"votes", "mixed"}[(i/2+i)%2]
+		per := 1200 + 100*r.Intn(6)
+		emit(core.Case{Kind: "reactor", Ops: []string{"reactor kind=consensus mode=" + mode,
+			fmt.Sprintf("flood peers=%d per=%d mix=%s expect=alive", 3+r.Intn(3), per, mix), "health"}})
+		note("reactor-consensus-flood-" + mix)
+	}
+	for _, k := range []string{"mempool", "evidence"} {
+		emit(core.Case{Kind: "reactor", Ops: []string{"reactor kind=" + k,
+			fmt.Sprintf("flood peers=%d per=%d mix=plain expect=alive", 3, 150), "health"}})
 	}
 	for _, k := range []string{"mempool", "evidence", "blockchain", "statesync", "pex"} {
 		for i := 0; i < no; i++ {
